@@ -16,6 +16,17 @@ TRUSTED = ["z3", "contracts of the public constructors (C01)", "claripy's Z3 tra
 ASSUMPTIONS = ["ite_dict keys lie within the index width (the split uses the unsigned <=)", "case lists of length <= 3, tables of up to 8 keys, If nesting <= 2"]
 
 
+def shape_tasks(tier, seed, count=None):
+    from vf import common
+    kl = sorted({l for f in common.findings_for("C08") for l in f.get("labels", [])})
+    out = []
+    for i in range(count or (8 if tier == "quick" else 32)):
+        out.append(task(U, "shapes", f"utils.traversals/bounded-shapes#{i}", ["C08", "C05"], kind="bounded", replay="vf.contracts.utils:replay_shapes",
+                        seed=seed * 100 + i, n=120 if tier == "quick" else 1500, width=[8, 16, 1, 32][i % 4], budget_s=45 if tier == "quick" else 500,
+                        known_labels=kl))
+    return out
+
+
 def tasks(tier, seed=0):
     from vf import common
     kl = sorted({l for f in common.findings_for("C08") for l in f.get("labels", [])})
@@ -24,8 +35,5 @@ def tasks(tier, seed=0):
     out += [task(U, "ob_reverse_ite_cases", f"utils.reverse_ite_cases/partition@w{w}", ["C08"], w=w, tier=tier) for w in (1, 8)]
     out += [task(U, "ob_chop", f"utils.BV.chop/concat@w{w}", ["C08"], w=w, tier=tier) for w in (8, 16, 24)]
     out += [task(U, "ob_get_bytes", f"utils.BV.get_bytes/slice@w{w}", ["C08"], w=w, tier=tier) for w in (8, 20, 24, 32)]
-    for i in range(8 if tier == "quick" else 32):
-        out.append(task(U, "shapes", f"utils.traversals/bounded-shapes#{i}", ["C08"], kind="bounded", replay="vf.contracts.utils:replay_shapes",
-                        seed=seed * 100 + i, n=120 if tier == "quick" else 1500, width=[8, 16, 1, 32][i % 4], budget_s=45 if tier == "quick" else 500,
-                        known_labels=kl))
+    out += shape_tasks(tier, seed)
     return out
